@@ -268,6 +268,20 @@ def main(argv):
             axn = [l.split(":")[0].strip() for l in ax]
             if not lines or any(a not in ALLOWED_AXIOMS for a in axn):
                 bad_assum.append("%s: %s" % (n, " | ".join(lines) or "no output"))
+    # thorough tier: independent re-check of the compiled theorems (and everything they depend on) with coqchk
+    coqchk = None
+    if tier == "thorough" and proof_ok and not replay:
+        with Lock("coq"):
+            rc, cout = sh(["timeout", "2400", "coqchk", "-silent", "-o", "-Q", COQ, "V", "V." + spec["props"]], cwd=COQ)
+        sect = re.search(r"\* Axioms:(.*?)\n\s*\n\* Constants/Inductives relying on type-in-type:(.*?)\n\s*\n\* Constants/Inductives relying on unsafe \(co\)fixpoints:(.*?)\n\s*\n\* Inductives whose positivity is assumed:(.*?)\n", cout + "\n", re.S)
+        ax = [l.strip() for l in (sect.group(1).splitlines() if sect else []) if l.strip() and l.strip() != "<none>"]
+        ours = [a for a in ax if not a.startswith("Coq.")]
+        coqchk = {"cmd": "coqchk -silent -o -Q coq V V." + spec["props"], "exit": rc,
+                  "axioms_of_loaded_libraries": ax, "axioms_outside_stdlib": ours,
+                  "type_in_type": sect.group(2).strip() if sect else "?", "unsafe_fixpoints": sect.group(3).strip() if sect else "?",
+                  "assumed_positivity": sect.group(4).strip() if sect else "?"}
+        if rc != 0 or not sect or ours or any(coqchk[k] != "<none>" for k in ("type_in_type", "unsafe_fixpoints", "assumed_positivity")):
+            proof_ok = False; failing_file = "coqchk"; log(cout[-2000:])
     obligations = len(names) + int(spec.get("extra_obligations", 0)) + ob_total
     discharged = obligations if (proof_ok and not forb and not bad_assum) else 0
     if discharged:
@@ -399,6 +413,7 @@ def main(argv):
             "index_obligations": {"total": ob_total, "unprovable": [o["id"] for o in ob_failing],
                                   "pinned": [{"id": o["id"], "site": "%s:%d %s" % (o["file"], o["line"], o["expr"])} for o in ob_pinned]},
             "replay_mode": bool(replay),
+            "coqchk": coqchk,
         },
         "assumptions": spec.get("assumptions", []),
         "wall_s": round(time.time() - t0, 2),
